@@ -62,15 +62,32 @@ class Crypto (B : Type) where
   /-- the empty byte string (VerifierKey of a 3P caveat that was not added yet) -/
   empty : B
 
-/-- the algebraic laws of the interface that the generic theorems use.  They are proved for the
-symbolic instance; for the concrete instance they are the standard correctness properties of
-AEAD open/seal, of the msgpack codec (Lemmas/Codec.lean) and of byte-string equality, and are
-validated by the correspondence rather than proved (the primitives are modelled, not verified). -/
-class LawfulCrypto (B : Type) [Crypto B] : Prop where
+/-- the algebraic laws of the interface that the generic theorems use, together with the domain
+on which the sealing laws hold.  The laws are size-aware: `okKey` = usable as an AEAD key,
+`okNonce` = usable as an AEAD nonce, `okTicketBody dk cs` = the ticket plaintext `{dk, cs}` is
+within the encoder's domain and the decoder's nesting budget.  Every value of the MAC chain is a
+key (`okKey_macNonce`, `okKey_macCav`, `okKey_finalize`), so the size hypotheses are dischargeable
+wherever a tail is used as a sealing key.
+Both instances are proved lawful: the symbolic one (Crypto/Symbolic.lean: all three predicates are
+`True`) and the concrete one (Lemmas/ConcreteLawful.lean: 32-byte keys, 12-byte nonces, well-formed
+caveat sets — from the AEAD round trip of Lemmas/ConcreteCrypto.lean and the codec round trip of
+Lemmas/Codec.lean).  The class carries the three predicates, hence it is a `Type`, not a `Prop`. -/
+class LawfulCrypto (B : Type) [Crypto B] where
+  /-- usable as an AEAD key (concrete: exactly 32 bytes, `chacha20poly1305.New`) -/
+  okKey : B → Prop
+  /-- usable as an AEAD nonce (concrete: exactly 12 bytes, `NonceSize`) -/
+  okNonce : B → Prop
+  /-- the ticket plaintext `wireTicket{dk, cs}` encodes and decodes back (concrete: lengths within
+  the 32-bit headers, well-formed caveats, nesting within the decoder's budget) -/
+  okTicketBody : B → List (Cav B) → Prop
+  okKey_macNonce : ∀ (k : B) (n : GNonce B), okKey (Crypto.macNonce k n)
+  okKey_macCav : ∀ (t : B) (c : Cav B) (t' : B), Crypto.macCav t c = some t' → okKey t'
+  okKey_finalize : ∀ t : B, okKey (Crypto.finalize t)
   ctEq_iff : ∀ a b : B, Crypto.ctEq a b = true ↔ a = b
   kidEq_iff : ∀ a b : B, Crypto.kidEq a b = true ↔ a = b
-  unsealKey_sealKey : ∀ t n rn : B, Crypto.unsealKey t (Crypto.sealKey t n rn) = some rn
-  openTicket_sealTicket : ∀ (ka n dk : B) (cs : List (Cav B)),
+  unsealKey_sealKey : ∀ t n rn : B, okKey t → okNonce n →
+    Crypto.unsealKey t (Crypto.sealKey t n rn) = some rn
+  openTicket_sealTicket : ∀ (ka n dk : B) (cs : List (Cav B)), okKey ka → okNonce n → okTicketBody dk cs →
     Crypto.openTicket ka (Crypto.sealTicket ka n dk cs) = .ok dk cs
   hasPrefix_bindId : ∀ t : B, Crypto.hasPrefix (Crypto.digest t) (Crypto.bindId t) = true
   /-- equal encodings are MACed alike -/
